@@ -30,6 +30,7 @@ static size_t subject_input(int shape, u8* p) {
     case 2: memset(p, 'q', 9000); p[4000] = 'r'; return 9000;
     case 3: fill_text(p, 70000, 9); memcpy(p + 40000, p + 300, 20000); return 70000;
     case 4: fill_text(p, 1, 1); return 1;
+    case 6: fill_text(p, 1200, 3); fill_noise(p + 1200, 4300, 9); memcpy(p + 5500, p + 3600, 900); fill_text(p + 6400, 600, 4); fill_noise(p + 7000, 2600, 10); memcpy(p + 9600, p + 8100, 1200); return 10800;   /* match-less stretches of > 2 KiB (the finders switch to skipping), then repeats of what was skipped over */
     default: for (int i = 0; i < 20000; i++) p[i] = (u8)((i * 7 + (i >> 5)) & 0x3f); return 20000;
     }
 }
@@ -219,11 +220,21 @@ static void body_mt(void) {
 /* --mode 3: subjects of several full 128 KiB blocks (per-frame counters that steer block-level decisions, e.g. the pre-block splitter's "savings so far"),
  * after priors that leave large counters behind: an incompressible 1000 KB frame, a compressible one, two frames, an aborted one */
 static void body_big(void) {
-    static const int LV[] = {1, 3, 6, 9, 13}; int lv = LV[vx_choose(5)], prior = vx_choose(5), api = vx_choose(3), kind = vx_choose(2), tex = vx_choose(2);
+    static const int LV[] = {1, 3, 6, 9, 13}; int lv = LV[vx_choose(5)], prior = vx_choose(5), api = vx_choose(3), kind = vx_choose(2), tex = vx_choose(3);
     static const char* PN[] = {"none", "incompressible 1000 KB frame", "compressible 600 KB frame", "both", "aborted stream + reset"};
     vx_label("big level%d after [%s] api%d ctx%d texture%d", lv, PN[prior], api, kind, tex);
     u8* src = g_srcPage; size_t n = 400000;
-    if (tex) { fill_text(src, n, 77); for (size_t q = 131072; q < n; q += 131072) fill_noise(src + q - 9000, 18000, (uint32_t)q); }      /* statistics change around block edges */
+    if (tex == 2) {   /* archive-like: incompressible members, text, verbatim copies of earlier regions, 900 KB, compressed with the row finder and small tables (hashLog 10, window 16 KiB):
+                       * rows fill up and entries are evicted all the time, so anything that places an entry in a history-dependent row shows in the output */
+        n = 900000; uint64_t st = 0xC07; size_t pos = 0;
+#define RND() (st = st * 6364136223846793005ULL + 1442695040888963407ULL, (unsigned)(st >> 33))
+        while (pos < n) { unsigned k = RND() % 8; size_t len = 1024 + (RND() % (24 * 1024)); if (len > n - pos) len = n - pos;
+            if (k <= 2 || pos < 56000) { for (size_t i = 0; i < len; i++) src[pos + i] = (u8)RND(); } else if (k <= 4) { for (size_t i = 0; i < len; i++) src[pos + i] = (u8)("etaoin shrdlu\n"[RND() % 14]); }
+            else { size_t from = RND() % (pos > len ? pos - len : 1); memmove(src + pos, src + from, len); }
+            pos += len; }
+#undef RND
+    }
+    else if (tex) { fill_text(src, n, 77); for (size_t q = 131072; q < n; q += 131072) fill_noise(src + q - 9000, 18000, (uint32_t)q); }      /* statistics change around block edges */
     else { fill_text(src, 200000, 78); for (size_t i = 200000; i < n; i++) src[i] = (u8)((i * 7 + (i >> 9)) & 0x1f); }
     static u8* noise; if (!noise) { noise = (u8*)malloc(BIG); fill_noise(noise, BIG, 99); }
     size_t cap = ZSTD_compressBound(BIG) + 64;
@@ -238,6 +249,7 @@ static void body_big(void) {
             ZSTD_CCtx_reset(x, ZSTD_reset_session_and_parameters);
         }
         ZSTD_CCtx_setParameter(x, ZSTD_c_compressionLevel, lv);
+        if (tex == 2) { ZSTD_CCtx_setParameter(x, ZSTD_c_useRowMatchFinder, ZSTD_ps_enable); ZSTD_CCtx_setParameter(x, ZSTD_c_hashLog, 10); ZSTD_CCtx_setParameter(x, ZSTD_c_windowLog, 14); }
         if (api == 0) r = ZSTD_compress2(x, dst, cap, src, n);
         else if (api == 1) r = ZSTD_compressCCtx(x, dst, cap, src, n, lv);
         else { ZSTD_inBuffer in = { src, n, 0 }; ZSTD_outBuffer out = { dst, cap, 0 }; size_t e; do { e = ZSTD_compressStream2(x, &out, &in, ZSTD_e_end); } while (e && !ZSTD_isError(e)); r = ZSTD_isError(e) ? e : out.pos; }
@@ -258,7 +270,7 @@ static void body(void) {
     int ctxKind = vx_choose(2);          /* 0 heap, 1 static */
     int hlen = vx_choose(g_depth + 1), h[4];
     for (int i = 0; i < hlen; i++) h[i] = vx_choose(NHOPS);
-    int nshapes = (int)vx_opt_int("--nshapes", 6); subj_t S; S.shape = vx_choose(nshapes); if (nshapes == 3) S.shape = S.shape == 0 ? 0 : S.shape == 1 ? 3 : 5; S.vec = vx_deviate(NVEC); S.calls = vx_deviate(4); S.align = vx_deviate(3);    /* subject: every shape, <= D deviations from (fast, one-shot, aligned) */
+    int nshapes = (int)vx_opt_int("--nshapes", 6); subj_t S; S.shape = vx_choose(nshapes); if (nshapes == 3 || nshapes == 4) S.shape = S.shape == 0 ? 0 : S.shape == 1 ? 3 : S.shape == 2 ? 5 : 6; else if (S.shape == 6) S.shape = 6; S.vec = vx_deviate(NVEC); S.calls = vx_deviate(4); S.align = vx_deviate(3);    /* subject: every shape, <= D deviations from (fast, one-shot, aligned) */
     char hs[160] = ""; size_t ho = 0; for (int i = 0; i < hlen; i++) ho += snprintf(hs + ho, sizeof hs - ho, "%s%s", i ? " ; " : "", HOPN[h[i]]);
     vx_label("ctx%d [%s] -> subject shape%d vec%d calls%d align%d", ctxKind, hs, S.shape, S.vec, S.calls, S.align);
     /* the subject's source lives right after an unreadable page, at a chosen alignment */
